@@ -65,6 +65,10 @@ let do_ren full hex order td lim ctxf tracew =
   (match dir_reorder s xtd cf raw ident with
    | None -> pr "FUEL"
    | Some ord -> List.iter (fun i -> pr "%d," (inat i)) ord);
+  (* the order array ren_position lays the line out with (RenOrdDefs.ren_order: dir_reorder's result when the line is
+     within linelimit in CHARACTERS and the order option asks for it, the identity otherwise) *)
+  pr " rord=";
+  List.iter (fun i -> pr "%d," (inat i)) (ren_order dr o s);
   if full then begin
   let pos = ren_position dr o s in
   let posa = Array.of_list (List.map iz pos) in
